@@ -47,6 +47,27 @@ Proof. vm_compute. reflexivity. Qed.
    npm:<name>@<version>) the extractor loop has no partial operation left; the model returns Ok on every structure.
    (Before the fix the model reproduced the slice-bounds panic on "npm:name"; regression witness in
    KNOWN_FINDINGS.d/C02.json, packagelockjson-npm-alias-without-at, status fixed.) *)
+(* structure-level extractor loops: none of them has a partial operation (no index / slice / dereference that
+   can fail on the decoded structure; Pipfile's Version[2:] is guarded by the length test that the model keeps) *)
+Theorem composer_struct_never_panics : forall st, extract_composer st <> Panic.
+Proof. intros st. discriminate. Qed.
+Print Assumptions composer_struct_never_panics.
+Theorem cargo_struct_never_panics : forall st, extract_cargo st <> Panic.
+Proof. intros st. discriminate. Qed.
+Print Assumptions cargo_struct_never_panics.
+Theorem poetry_struct_never_panics : forall st, extract_poetry st <> Panic.
+Proof. intros st. discriminate. Qed.
+Print Assumptions poetry_struct_never_panics.
+Theorem nuget_struct_never_panics : forall st, extract_nuget st <> Panic.
+Proof. intros st. discriminate. Qed.
+Print Assumptions nuget_struct_never_panics.
+Theorem pipfile_struct_never_panics : forall st, extract_pipfile st <> Panic.
+Proof. intros st. discriminate. Qed.
+Print Assumptions pipfile_struct_never_panics.
+Theorem gomod_struct_never_panics : forall st, extract_gomod st <> Panic.
+Proof. intros st. discriminate. Qed.
+Print Assumptions gomod_struct_never_panics.
+
 Theorem packagelock_struct_never_panics : forall st, extract_packagelock st <> Panic.
 Proof. intros st. unfold extract_packagelock. destruct (ns_packages st); discriminate. Qed.
 Print Assumptions packagelock_struct_never_panics.
